@@ -499,6 +499,18 @@ C["C39"] = {
  "stubs": SRV_STUBS + WS_STUBS, "trusted_base": SRV_TB,
 }
 
+# ---------------- C36 (shutdown) ----------------
+C["C36"] = {
+ "pkgs": [".", "./listeners"],
+ "technique": "context-bounded symbolic execution of the real Server.Close, Listeners.CloseAll, closeListenerClients and the real connection handlers (attachClient with WriteLoop) as interpreted goroutines: the position of the second connection relative to Close (waiting for CONNECT, handed over concurrently, scheduled after Close) and every switch at synchronisation operations within the pre-emption / scheduling bound are engine decisions; obligations asserted at quiescence",
+ "quick": {"harnesses": [H("VerifC36Shutdown", STAGE=0, PREEMPT=1, SCHED=1), H("VerifC36Shutdown", STAGE=1, PREEMPT=1, SCHED=1), H("VerifC36Shutdown", STAGE=2, PREEMPT=1, SCHED=1), H("VerifC36Shutdown", STAGE=3, PREEMPT=1, SCHED=1)], "budget_s": 900, "witnesses": 3, "perm_limit": 1,
+   "bounds": "one listener (the repository's MockListener); connection 1 (protocol 4/5) attached before Close; connection 2 (protocol 4/5) waiting for its CONNECT when Close is called (CONNECT arrives during the shutdown), or handed to its handler goroutine concurrently with Close, or absent, or first scheduled after Close returned; at most 1 pre-emption at a synchronisation operation and at most 1 non-default choice among runnable goroutines when one blocks"},
+ "thorough": {"harnesses": [H("VerifC36Shutdown", STAGE=0, PREEMPT=2, SCHED=1), H("VerifC36Shutdown", STAGE=1, PREEMPT=1, SCHED=2), H("VerifC36Shutdown", STAGE=2, PREEMPT=2, SCHED=1), H("VerifC36Shutdown", STAGE=3, PREEMPT=1, SCHED=2)], "budget_s": 3000, "witnesses": 3, "perm_limit": 1,
+   "bounds": "as quick with 2 pre-emptions (stages 0, 2) or 2 non-default scheduling choices (stages 1, 3)"},
+ "outside_bounds": ["the listeners' accept loops, net.Listener.Close / Accept and http.Server.Shutdown (runtime and net package: not encoded; the accept loop is represented by its effect, a goroutine calling the establish function)", "more than two connections, more than one listener", "schedules beyond the pre-emption / scheduling bound", "the event loop goroutine (Serve is not called)"],
+ "stubs": SRV_STUBS + LIVE, "trusted_base": SRV_TB,
+}
+
 def main():
     os.makedirs(os.path.join(root, "checks"), exist_ok=True)
     for cid, c in C.items():
